@@ -42,6 +42,8 @@ structure MLayer where
   depth : Nat
   caps : List RCap
   ends : List Nat
+  /-- index of the layer in the table (ghost: never read by the merge, used to state theorems) -/
+  id : Nat := 0
   deriving Repr
 
 structure MSt where
@@ -114,7 +116,7 @@ def collapse (node : Nat) (h : Option Nat) : List RCap → Option Nat × List RC
     else (h, c :: r)
 
 def mkLayer (defs : List LayerDef) (id : Nat) : Option MLayer :=
-  (defs[id]?).map fun d => { depth := d.depth, caps := d.caps, ends := [] }
+  (defs[id]?).map fun d => { depth := d.depth, caps := d.caps, ends := [], id := id }
 
 inductive StepRes where
   | done (evs : List Ev)
